@@ -1,8 +1,22 @@
+import SignaloModel.Proofs.BridgeSinks
 import SignaloModel.Proofs.SinksProofs
 /-!
 # C11 — Statistics sinks finalise to the batch statistic of everything received
 
-Property theorems for C11 (statements are printed by `#check`, axioms by `#print axioms`;
+Property theorems for C11 (statements are printed by `#check`, axioms by `#check @SinkModels.min_feed
+#check @SinkModels.max_feed
+#check @SinkModels.bounds_feed
+#check @SinkModels.last_feed
+#check @SinkModels.integrate_feed
+#check @SinkModels.collect_feed
+#check @SinkModels.mean_feed
+#check @SinkModels.meanVar_feed
+#check @SinkModels.statistics_feed
+#check @SinkModels.welford_correct
+#check @SinkModels.mean_finalize
+#check @SinkModels.meanVar_finalize
+#check @SinkModels.finalize_empty
+#print axioms`;
 `bin/check C11` re-elaborates this file on every run and audits the axiom lists).
 -/
 open SignaloModel
@@ -10,3 +24,16 @@ open SignaloModel
 #check @Sinks.winv_step
 
 #print axioms Sinks.winv_step
+#print axioms SinkModels.min_feed
+#print axioms SinkModels.max_feed
+#print axioms SinkModels.bounds_feed
+#print axioms SinkModels.last_feed
+#print axioms SinkModels.integrate_feed
+#print axioms SinkModels.collect_feed
+#print axioms SinkModels.mean_feed
+#print axioms SinkModels.meanVar_feed
+#print axioms SinkModels.statistics_feed
+#print axioms SinkModels.welford_correct
+#print axioms SinkModels.mean_finalize
+#print axioms SinkModels.meanVar_finalize
+#print axioms SinkModels.finalize_empty
